@@ -1,6 +1,7 @@
 #!/bin/bash
 # Build the framework from files on disk only (offline): translator output + full .vo build.
 cd "$(dirname "$0")"
-export PYTHONPATH=/verif/harness:/repo PYTHONHASHSEED=0
-/venv/bin/python harness/build_all.py 2>&1 | grep -v 'WARNING conda'
+D="$(pwd)"
+export PYTHONPATH=$D/harness:${POLAR_REPO:-/repo} PYTHONHASHSEED=0
+/venv/bin/python $D/harness/build_all.py 2>&1 | grep -v 'WARNING conda'
 exit 0
